@@ -8,14 +8,14 @@ The long-format reader is regular-expression based; Read.lean models each regula
 (compared with `re` itself on every run); Lemmas/Matchers.lean restates the matchers on `List Char`.
 
 * `parseLong_emit` — the whole-file theorem (any number of tiers, also none), hypotheses: `LongNum` numerals, `NoKwLong`
-  (A10: `item [`, `item[`, and the entry separator of the tier's own class), strip-invariant labels, single-line names, no
-  `\r\n`.  NOT needed (proved harmless): labels/names that look like rows (`text = "…"`, `xmin = 5`, `name = "x"`,
+  (A10: `item [`, `item[`, and the entry separator of the tier's own class), strip-invariant labels, `NameRowFree` names (single
+  line, or without the words `xmin` / `xmax`: multi-line names are read since fix A32), no `\r\n`.  NOT needed (proved harmless): labels/names that look like rows (`text = "…"`, `xmin = 5`, `name = "x"`,
   `class = "IntervalTier"`), quotes followed by blanks and a line break, the other class's separator.
-* (a) `numAfter_written`, `textAfter_dotall`, `textAfter_line`, `scanL_barrier` — the matchers on written rows;
+* (a) `numAfter_written`, `textAfter_dotall`, `textAfter_dotall_tail`, `scanL_barrier`, `scanL_free` — the matchers on written rows;
   (b) `readEntry_iv`, `readEntry_pt`, `readTier_written`; (c) `split_file`; `emitLong_toList`.
 * `parseText_long_emit`, `parseText_short_emit` — through the format sniffing of `parseTextgridStr`, with `_removeBlanks`.
 * `sep_in_row_iff`, `noKwLong_of_no_bracket` — the keyword hypothesis exactly / a simple sufficient condition;
-  `parseLong_keyword_counterexample`, `parseLong_name_newline_counterexample`, `parseText_short_item_counterexample`,
+  `parseLong_keyword_counterexample`, `parseLong_name_row_counterexample`, `parseText_short_item_counterexample`,
   `#guard`s — what must be excluded.  The hypotheses are classified (property's own quantifier / enforced by the code /
   known defect with counter-example) in the docstrings of `LongNum`, `parseLong_emit`, `parseText_*_emit`.
 -/
@@ -28,18 +28,23 @@ open Txt Rd
 /-- the characters of a numeral the long-format reader accepts -/
 def numChar (c : Char) : Bool := c.isDigit || c == '.' || c == 'e' || c == 'E' || c == '+' || c == '-'
 
-/-- `w` matches `[\d.]+(?:[eE][-+]?\d+)?` entirely (CPython's `repr` / `"%d"` of a finite non-negative number does).
-No sign is accepted.  C01 quantifies over non-negative times, so for C01 this is the property's own quantifier; what the
-reader does with a signed numeral: on the rows whose pattern has `-?` (a tier's / an interval's `xmin`, a point's `number`)
-the `-` is matched but NOT captured — `-1.5` is read as `1.5`, `-0` as `0` (`C03.numAfter_start_gen`; whole files:
-`C03.parseLong_layout_signed`) — and on the `xmax` rows nothing matches: `ParsingError` (`C03.numAfter_signed_none`); a
-negative time in a whole file: `C03.long_short_negative_counterexample`.  A `+` sign is matched by no pattern
-(`ParsingError`). -/
-inductive LongNum : List Char → Prop
-  | plain (m : List Char) (hm : m ≠ []) (hd : ∀ c ∈ m, isDigitDot c = true) : LongNum m
+/-- `w` matches `[\d.]+(?:[eE][-+]?\d+)?` entirely: an UNSIGNED numeral (CPython's `repr` / `"%d"` of a finite non-negative
+number is one). -/
+inductive UNum : List Char → Prop
+  | plain (m : List Char) (hm : m ≠ []) (hd : ∀ c ∈ m, isDigitDot c = true) : UNum m
   | exp (m : List Char) (c : Char) (sg ds : List Char) (hm : m ≠ []) (hd : ∀ c ∈ m, isDigitDot c = true)
       (hc : c = 'e' ∨ c = 'E') (hsg : sg = [] ∨ sg = ['-'] ∨ sg = ['+']) (hds : ds ≠ [])
-      (hdd : ∀ c ∈ ds, c.isDigit = true) : LongNum (m ++ c :: (sg ++ ds))
+      (hdd : ∀ c ∈ ds, c.isDigit = true) : UNum (m ++ c :: (sg ++ ds))
+
+/-- `w` matches the captured group `-?[\d.]+(?:[eE][-+]?\d+)?` of the long-format reader's numeric rows entirely: an unsigned
+numeral or `-` followed by one — CPython's `repr` / `"%d"` of EVERY finite number, negative ones and `-0.0` included
+(`-0` is written for −0.0).  Since fix A30 (c4606fd) the sign is inside the captured group on every numeric row (tier and
+entry `xmin`, `xmax`, `number`); before it the `-` was matched but not captured on the start rows (`-1.5` was read as `1.5`)
+and not matched at all on the `xmax` rows (`ParsingError`).  A `+` sign is matched by no pattern (`ParsingError`; CPython
+writes none). -/
+inductive LongNum : List Char → Prop
+  | pos (w : List Char) (h : UNum w) : LongNum w
+  | neg (w : List Char) (h : UNum w) : LongNum ('-' :: w)
 
 theorem digitDot_numChar (c : Char) (h : isDigitDot c = true) : numChar c = true := by
   simp only [isDigitDot, Bool.or_eq_true] at h
@@ -48,7 +53,7 @@ theorem digitDot_numChar (c : Char) (h : isDigitDot c = true) : numChar c = true
   · simp [h]
   · simp [h]
 
-theorem LongNum.chars {w : List Char} (h : LongNum w) : ∀ c ∈ w, numChar c = true := by
+theorem UNum.chars {w : List Char} (h : UNum w) : ∀ c ∈ w, numChar c = true := by
   cases h with
   | plain m hm hd => intro c hc; exact digitDot_numChar c (hd c hc)
   | exp m c sg ds hm hd hc hsg hds hdd =>
@@ -63,10 +68,24 @@ theorem LongNum.chars {w : List Char} (h : LongNum w) : ∀ c ∈ w, numChar c =
       · simp at hx; subst hx; decide
     · simp [numChar, hdd x hx]
 
-theorem LongNum.ne_nil {w : List Char} (h : LongNum w) : w ≠ [] := by
+theorem UNum.ne_nil {w : List Char} (h : UNum w) : w ≠ [] := by
   cases h with
   | plain m hm hd => exact hm
   | exp m c sg ds hm hd hc hsg hds hdd => simp
+
+theorem LongNum.chars {w : List Char} (h : LongNum w) : ∀ c ∈ w, numChar c = true := by
+  cases h with
+  | pos _ h => exact h.chars
+  | neg u h =>
+    intro c hc
+    rcases List.mem_cons.1 hc with rfl | hc
+    · decide
+    · exact h.chars c hc
+
+theorem LongNum.ne_nil {w : List Char} (h : LongNum w) : w ≠ [] := by
+  cases h with
+  | pos _ h => exact h.ne_nil
+  | neg u h => simp
 
 theorem runLen_append_stop (p : Char → Bool) (m rest : List Char) (hm : ∀ c ∈ m, p c = true)
     (hr : rest.head?.any p = false) : runLen p (m ++ rest) = m.length := by
@@ -83,7 +102,7 @@ theorem blankL_sp_nl (rest : List Char) : blankL (' ' :: '\n' :: rest) = true :=
   simp [blankL, show pyIsSpace ' ' = true by decide]
 
 /-- **the numeral matcher on a written numeral** followed by ` \n` captures exactly the numeral -/
-theorem numLen_written (w rest : List Char) (h : LongNum w) : numLen (w ++ ' ' :: '\n' :: rest) = some w.length := by
+theorem numLen_written (w rest : List Char) (h : UNum w) : numLen (w ++ ' ' :: '\n' :: rest) = some w.length := by
   cases h with
   | plain _ hm hd =>
     have hr : runLen isDigitDot (w ++ ' ' :: '\n' :: rest) = w.length :=
@@ -156,7 +175,7 @@ theorem numLen_written (w rest : List Char) (h : LongNum w) : numLen (w ++ ' ' :
 theorem headLen_eq (rest : List Char) : headLen (' ' :: '=' :: ' ' :: rest) = some 3 := by
   simp [headLen, spLen]
 
-theorem LongNum.head {w : List Char} (h : LongNum w) : ∃ a as, w = a :: as ∧ isDigitDot a = true := by
+theorem UNum.head {w : List Char} (h : UNum w) : ∃ a as, w = a :: as ∧ isDigitDot a = true := by
   cases h with
   | plain _ hm hd =>
     cases w with
@@ -167,7 +186,7 @@ theorem LongNum.head {w : List Char} (h : LongNum w) : ∃ a as, w = a :: as ∧
     | nil => exact absurd rfl hm
     | cons x xs => exact ⟨x, xs ++ c :: (sg ++ ds), rfl, hd x (by simp)⟩
 
-theorem LongNum.head_not_minus {w : List Char} (h : LongNum w) (rest : List Char) :
+theorem UNum.head_not_minus {w : List Char} (h : UNum w) (rest : List Char) :
     ((w ++ rest).head? == some '-') = false := by
   obtain ⟨a, as, rfl, ha⟩ := h.head
   simp only [List.cons_append, List.head?_cons]
@@ -175,15 +194,28 @@ theorem LongNum.head_not_minus {w : List Char} (h : LongNum w) (rest : List Char
   | false => rfl
   | true => simp at hx; subst hx; exact absurd ha (by decide)
 
-/-- **(a) `matchNum` on a written row**, after the keyword: ` = W \n…` yields `W` -/
-theorem numAfter_written (neg : Bool) (w rest : List Char) (h : LongNum w) :
-    numAfter neg (' ' :: '=' :: ' ' :: (w ++ ' ' :: '\n' :: rest)) = some w := by
+/-- the first character of a numeral is a numeral character (so neither a blank nor `=`) -/
+theorem LongNum.head {w : List Char} (h : LongNum w) : ∃ a as, w = a :: as ∧ numChar a = true := by
+  cases h with
+  | pos _ h => obtain ⟨a, as, e, ha⟩ := h.head; exact ⟨a, as, e, digitDot_numChar a ha⟩
+  | neg u h => exact ⟨'-', u, rfl, by decide⟩
+
+/-- **(a) `matchNum` on a written row**, after the keyword: ` = W \n…` yields `W` — the sign of a negative numeral included
+(pattern `(-?…)`, every numeric row since fix A30) -/
+theorem numAfter_written (w rest : List Char) (h : LongNum w) :
+    numAfter true (' ' :: '=' :: ' ' :: (w ++ ' ' :: '\n' :: rest)) = some w := by
   unfold numAfter
   rw [headLen_eq]
   simp only [List.drop_succ_cons, List.drop_zero]
-  have hm := h.head_not_minus (' ' :: '\n' :: rest)
-  simp only [hm, Bool.and_false, Bool.false_eq_true, if_false, List.drop_zero, numLen_written w rest h, Option.map_some,
-    List.take_left]
+  cases h with
+  | pos _ h =>
+    have hm := h.head_not_minus (' ' :: '\n' :: rest)
+    simp only [hm, Bool.and_false, Bool.false_eq_true, if_false, List.drop_zero, numLen_written w rest h, Option.map_some,
+      List.take_left, List.take_zero, List.nil_append]
+  | neg u h =>
+    simp only [List.cons_append, List.head?_cons, Bool.true_and, beq_self_eq_true, if_true, List.drop_succ_cons,
+      List.drop_zero, numLen_written u rest h, Option.map_some, List.take_left, List.take_succ_cons, List.take_zero,
+      List.nil_append]
 
 /-! ## text rows -/
 
@@ -238,6 +270,25 @@ theorem textAfter_dotall (esc ws : List Char) (hws : ∀ c ∈ ws, c = ' ') :
     · exact absurd h (by decide)
     · exact absurd (hws _ h) (by decide)
   · exact blankL_sp_nl ws
+
+/-- **(a) `matchText` (DOTALL) on a written row followed by ANY quote-free tail** (the `name` row of a tier header since fix
+A32: the rest of the header — `xmin`, `xmax`, size rows — holds no quote): ` = "esc" \n…` yields exactly the escaped text, for
+EVERY text — line breaks included -/
+theorem textAfter_dotall_tail (esc tail : List Char) (ht : '"' ∉ tail) :
+    textAfter true (' ' :: '=' :: ' ' :: '"' :: (esc ++ '"' :: ' ' :: '\n' :: tail)) = some esc := by
+  unfold textAfter
+  rw [headLen_eq]
+  simp only [List.drop_succ_cons, List.drop_zero, List.head?_cons, beq_self_eq_true, if_true]
+  apply backL_closing
+  · simp only [List.length_append, List.length_cons]; omega
+  · simp only [List.length_append, List.length_cons]; omega
+  · intro hm
+    simp only [List.mem_cons] at hm
+    rcases hm with h | h | h
+    · exact absurd h (by decide)
+    · exact absurd h (by decide)
+    · exact ht h
+  · exact blankL_sp_nl tail
 
 /-- **(a) `matchText` on a written single-line row (`name`)**: the search stops at the end of the line -/
 theorem textAfter_line (esc rest : List Char) (hnl : '\n' ∉ esc) :
@@ -699,6 +750,39 @@ theorem infix_lines (pat : List Char) (segs : List (List Char)) (tail : List Cha
 
 /-! ## one entry -/
 
+/-- a quote-free keyword that starts inside a segment ending at a quote lies inside the segment -/
+theorem prefix_of_seg (kw u rest : List Char) (hq : '"' ∉ kw) (h : kw.isPrefixOf (u ++ '"' :: rest) = true) : kw <+: u := by
+  induction kw generalizing u with
+  | nil => exact List.nil_prefix
+  | cons k ks ih =>
+    cases u with
+    | nil =>
+      simp only [List.nil_append, List.isPrefixOf, Bool.and_eq_true, beq_iff_eq] at h
+      exact absurd (by rw [h.1]; simp) hq
+    | cons c cs =>
+      simp only [List.cons_append, List.isPrefixOf, Bool.and_eq_true, beq_iff_eq] at h
+      obtain ⟨rfl, h2⟩ := h
+      have := ih cs (fun hm => hq (List.mem_cons_of_mem _ hm)) h2
+      exact List.cons_prefix_cons.2 ⟨rfl, this⟩
+
+/-- a segment (ending at a quote) that does not contain the quote-free keyword is skipped, whatever it contains — line
+breaks included -/
+theorem scanL_free {β : Type} (k0 : Char) (ks : List Char) (f : List Char → Option β) (u rest : List Char)
+    (hq : '"' ∉ k0 :: ks) (hfree : ¬ (k0 :: ks) <:+: u) :
+    scanL (k0 :: ks) f (u ++ '"' :: rest) = scanL (k0 :: ks) f rest := by
+  induction u with
+  | nil =>
+    have : (k0 == '"') = false := by simpa using fun e : k0 = '"' => hq (by simp [e])
+    simp [scanL, List.isPrefixOf, this]
+  | cons c cs ih =>
+    have hp : (k0 :: ks).isPrefixOf ((c :: cs) ++ '"' :: rest) = false := by
+      cases hb : (k0 :: ks).isPrefixOf ((c :: cs) ++ '"' :: rest) with
+      | false => rfl
+      | true => exact absurd (prefix_of_seg _ _ _ hq hb).isInfix hfree
+    rw [List.cons_append] at hp ⊢
+    rw [scanL_fail _ _ _ _ hp]
+    exact ih (fun h => hfree (by obtain ⟨a, b, e⟩ := h; exact ⟨c :: a, b, by simp [← e]⟩))
+
 theorem scanL_after {β : Type} (k0 : Char) (ks A tail : List Char) (f : List Char → Option β) (x : β) (hA : k0 ∉ A)
     (h : f tail = some x) : scanL (k0 :: ks) f (A ++ ((k0 :: ks) ++ tail)) = some x := by
   rw [scanL_skip k0 ks A _ f hA]
@@ -776,9 +860,9 @@ theorem readEntry_iv (num : α → String) (hnum : ∀ x, LongNum (num x).toList
   have et := notMem_num _ (hnum e.e) 't' (by decide)
   have h1 : matchNum (ivBody num j e ++ ws).toArray (lit "xmin") true = some (num e.s).toList.toArray := by
     rw [matchNum_eq _ _ _ (by decide), lit_xmin, List.toList_toArray, ivBody_shape,
-      scanL_after 'x' _ _ _ _ _ (by simp [ix, tx]) (numAfter_written true _ _ (hnum e.s))]
+      scanL_after 'x' _ _ _ _ _ (by simp [ix, tx]) (numAfter_written _ _ (hnum e.s))]
     rfl
-  have h2 : matchNum (ivBody num j e ++ ws).toArray (lit "xmax") false = some (num e.e).toList.toArray := by
+  have h2 : matchNum (ivBody num j e ++ ws).toArray (lit "xmax") true = some (num e.e).toList.toArray := by
     rw [matchNum_eq _ _ _ (by decide), lit_xmax, List.toList_toArray, ivBody_shape,
       scanL_skip 'x' _ _ _ _ (by simp [ix, tx])]
     rw [List.cons_append, scanL_fail _ _ _ _ (by simp [List.isPrefixOf])]
@@ -787,7 +871,7 @@ theorem readEntry_iv (num : α → String) (hnum : ∀ x, LongNum (num x).toList
     have e1 : ∀ T : List Char, ['m', 'i', 'n'] ++ (' ' :: '=' :: ' ' :: ((num e.s).toList ++ ' ' :: '\n' :: (tab3 ++ T))) =
         (['m', 'i', 'n'] ++ (' ' :: '=' :: ' ' :: ((num e.s).toList ++ ' ' :: '\n' :: tab3))) ++ T := by
       intro T; simp only [List.append_assoc, List.cons_append, List.nil_append]
-    rw [e1, scanL_after 'x' ['m', 'a', 'x'] _ _ (numAfter false) _ hC (numAfter_written false _ _ (hnum e.e))]
+    rw [e1, scanL_after 'x' ['m', 'a', 'x'] _ _ (numAfter true) _ hC (numAfter_written _ _ (hnum e.e))]
     rfl
   have h3 : matchText (ivBody num j e ++ ws).toArray (lit "text") true = some (escapeL e.l.toList).toArray := by
     rw [matchText_eq _ _ _ (by decide), lit_text, List.toList_toArray, ivBody_shape]
@@ -814,7 +898,7 @@ theorem readEntry_pt (num : α → String) (hnum : ∀ x, LongNum (num x).toList
   have s_m := notMem_num _ (hnum p.t) 'm' (by decide)
   have h1 : matchNum (ptBody num j p ++ ws).toArray (lit "number") true = some (num p.t).toList.toArray := by
     rw [matchNum_eq _ _ _ (by decide), lit_number, List.toList_toArray, ptBody_shape,
-      scanL_after 'n' _ _ _ _ _ (by simp [i_n, t_n]) (numAfter_written true _ _ (hnum p.t))]
+      scanL_after 'n' _ _ _ _ _ (by simp [i_n, t_n]) (numAfter_written _ _ (hnum p.t))]
     rfl
   have h3 : matchText (ptBody num j p ++ ws).toArray (lit "mark") true = some (escapeL p.l.toList).toArray := by
     rw [matchText_eq _ _ _ (by decide), lit_mark, List.toList_toArray, ptBody_shape,
@@ -1026,41 +1110,54 @@ theorem notMem_escape (c : Char) (l : List Char) (hc : c ≠ q) (h : c ∉ l) : 
   · exact h h1
   · exact hc h1
 
-/-- `xmin` and `xmax` of the tier header: the occurrences of these words inside the class and name rows (any single-line
-name) do not match, because a quote follows on the same line -/
+/-- `xmin` and `xmax` of the tier header: the occurrences of these words inside the class row and inside a single-line name do
+not match, because a quote follows on the same line; a multi-line name is skipped when it does not contain the two words at all
+(`NameRowFree`; a name holding a line `xmin = 1` IS taken for the span row: `parseLong_name_row_counterexample`) -/
 theorem head_nums (num : α → String) (hnum : ∀ x, LongNum (num x).toList) (k : Nat) (cls : List Char) (name : String)
-    (lo hi : α) (cnt : List Char) (n : Nat) (ws : List Char) (hcls : '\n' ∉ cls) (hname : '\n' ∉ name.toList) :
+    (lo hi : α) (cnt : List Char) (n : Nat) (ws : List Char) (hcls : '\n' ∉ cls)
+    (hname : '\n' ∉ name.toList ∨ (¬ "xmin".toList <:+: name.toList ∧ ¬ "xmax".toList <:+: name.toList)) :
     matchNum (tierHead num k cls name lo hi cnt n ++ ws).toArray (lit "xmin") true = some (num lo).toList.toArray ∧
-    matchNum (tierHead num k cls name lo hi cnt n ++ ws).toArray (lit "xmax") false = some (num hi).toList.toArray := by
+    matchNum (tierHead num k cls name lo hi cnt n ++ ws).toArray (lit "xmax") true = some (num hi).toList.toArray := by
   have ix : 'x' ∉ idxL k ++ ['\n'] := by
     simp [notMem_idxL 'x' k (by decide) (by decide) (by decide)]
   have hu1 : '\n' ∉ tab2 ++ "class = ".toList := by
     simp only [List.mem_append, not_or]; exact ⟨notMem_tab2 _ (by decide), by decide⟩
   have hu3 : '\n' ∉ tab2 ++ ('n' :: ['a', 'm', 'e'] ++ eqL) := by
     simp only [List.mem_append, not_or]; exact ⟨notMem_tab2 _ (by decide), by decide⟩
-  have hu4 : '\n' ∉ escapeL name.toList := notMem_escape _ _ (by decide) hname
   have hsk : 'x' ∉ [' ', '\n'] := by decide
   have hsk2 : 'x' ∉ ' ' :: '\n' :: tab2 := by simp [notMem_tab2 'x' (by decide)]
-  have common : ∀ (ks : List Char) (neg : Bool) (T : List Char), '"' ∉ 'x' :: ks →
+  have hnameSeg : ∀ (ks : List Char) (neg : Bool) (T : List Char), '"' ∉ 'x' :: ks → ks ≠ [] →
+      ('\n' ∉ name.toList ∨ ¬ ('x' :: ks) <:+: name.toList) →
+      scanL ('x' :: ks) (numAfter neg) (escapeL name.toList ++ '"' :: T) = scanL ('x' :: ks) (numAfter neg) T := by
+    intro ks neg T hq hne h
+    rcases h with h | h
+    · exact scanL_barrier 'x' ks neg _ _ hq (notMem_escape _ _ (by decide) h)
+    · apply scanL_free 'x' ks _ _ _ hq
+      intro hin
+      exact h (infix_escape_quote_free _ _ hq (by simp) hin)
+  have common : ∀ (ks : List Char) (neg : Bool) (T : List Char), '"' ∉ 'x' :: ks → ks ≠ [] →
+      ('\n' ∉ name.toList ∨ ¬ ('x' :: ks) <:+: name.toList) →
       scanL ('x' :: ks) (numAfter neg) ((idxL k ++ ['\n']) ++ ((tab2 ++ "class = ".toList) ++ '"' :: (cls ++ '"' :: ([' ', '\n'] ++
         ((tab2 ++ ('n' :: ['a', 'm', 'e'] ++ eqL)) ++ '"' :: (escapeL name.toList ++ '"' :: ((' ' :: '\n' :: tab2) ++ T))))))) =
       scanL ('x' :: ks) (numAfter neg) T := by
-    intro ks neg T hq
+    intro ks neg T hq hne hnm
     rw [scanL_skip 'x' ks _ _ _ ix, scanL_barrier 'x' ks neg _ _ hq hu1, scanL_barrier 'x' ks neg _ _ hq hcls,
-      scanL_skip 'x' ks _ _ _ hsk, scanL_barrier 'x' ks neg _ _ hq hu3, scanL_barrier 'x' ks neg _ _ hq hu4,
+      scanL_skip 'x' ks _ _ _ hsk, scanL_barrier 'x' ks neg _ _ hq hu3, hnameSeg ks neg _ hq hne hnm,
       scanL_skip 'x' ks _ _ _ hsk2]
+  have hn1 : '\n' ∉ name.toList ∨ ¬ ('x' :: ['m', 'i', 'n']) <:+: name.toList := hname.imp id (fun h => h.1)
+  have hn2 : '\n' ∉ name.toList ∨ ¬ ('x' :: ['m', 'a', 'x']) <:+: name.toList := hname.imp id (fun h => h.2)
   constructor
-  · rw [matchNum_eq _ _ _ (by decide), lit_xmin, List.toList_toArray, tierHead_shape, common _ _ _ (by decide)]
-    rw [scanL_hit _ _ _ _ (by simp) (numAfter_written true _ _ (hnum lo))]
+  · rw [matchNum_eq _ _ _ (by decide), lit_xmin, List.toList_toArray, tierHead_shape, common _ _ _ (by decide) (by decide) hn1]
+    rw [scanL_hit _ _ _ _ (by simp) (numAfter_written _ _ (hnum lo))]
     rfl
-  · rw [matchNum_eq _ _ _ (by decide), lit_xmax, List.toList_toArray, tierHead_shape, common _ _ _ (by decide)]
+  · rw [matchNum_eq _ _ _ (by decide), lit_xmax, List.toList_toArray, tierHead_shape, common _ _ _ (by decide) (by decide) hn2]
     rw [List.cons_append, scanL_fail _ _ _ _ (by simp [List.isPrefixOf])]
     have hC : 'x' ∉ ['m', 'i', 'n'] ++ (' ' :: '=' :: ' ' :: ((num lo).toList ++ ' ' :: '\n' :: tab2)) := by
       simp [notMem_num _ (hnum lo) 'x' (by decide), notMem_tab2 'x' (by decide)]
     have e1 : ∀ T : List Char, ['m', 'i', 'n'] ++ (' ' :: '=' :: ' ' :: ((num lo).toList ++ ' ' :: '\n' :: (tab2 ++ T))) =
         (['m', 'i', 'n'] ++ (' ' :: '=' :: ' ' :: ((num lo).toList ++ ' ' :: '\n' :: tab2))) ++ T := by
       intro T; simp only [List.append_assoc, List.cons_append, List.nil_append]
-    rw [e1, scanL_after 'x' ['m', 'a', 'x'] _ _ (numAfter false) _ hC (numAfter_written false _ _ (hnum hi))]
+    rw [e1, scanL_after 'x' ['m', 'a', 'x'] _ _ (numAfter true) _ hC (numAfter_written _ _ (hnum hi))]
     rfl
 
 theorem tierHead_shapeN (num : α → String) (k : Nat) (cls : List Char) (name : String) (lo hi : α) (cnt : List Char) (n : Nat)
@@ -1073,12 +1170,22 @@ theorem tierHead_shapeN (num : α → String) (k : Nat) (cls : List Char) (name 
   have e3 : "name".toList = 'n' :: ['a', 'm', 'e'] := by rfl
   simp only [tierHead, joinNl, classRow, textRowL, eqL, row, q, e3, List.append_assoc, List.cons_append, List.nil_append]
 
-/-- `name` of the tier header, both classes (single-line names) -/
-theorem head_name (num : α → String) (k : Nat) (isI : Bool) (name : String) (lo hi : α) (cnt : List Char) (n : Nat)
-    (ws : List Char) (hname : '\n' ∉ name.toList) :
+/-- `name` of the tier header, both classes, EVERY name (pattern with DOTALL since fix A32): the rest of the header holds no
+quote, so the greedy match ends at the name's closing quote -/
+theorem head_name (num : α → String) (hnum : ∀ x, LongNum (num x).toList) (k : Nat) (isI : Bool) (name : String) (lo hi : α)
+    (cnt : List Char) (n : Nat) (ws : List Char) (hcnt : '"' ∉ cnt) (hws : '"' ∉ ws) :
     matchText (tierHead num k (if isI then "IntervalTier".toList else "TextTier".toList) name lo hi cnt n ++ ws).toArray
-      (lit "name") false = some (escapeL name.toList).toArray := by
-  have hesc : '\n' ∉ escapeL name.toList := notMem_escape _ _ (by decide) hname
+      (lit "name") true = some (escapeL name.toList).toArray := by
+  have htail : '"' ∉ numRowL tab2 "xmin".toList (num lo) ++ '\n' :: (numRowL tab2 "xmax".toList (num hi) ++ '\n' ::
+      (sizeRow cnt n ++ '\n' :: ws)) := by
+    have t2 := notMem_tab2 '"' (by decide)
+    have hd : '"' ∉ (toString n).toList := fun hm => by
+      rw [count_toList] at hm
+      exact absurd (Nat.isDigit_of_mem_toDigits (by decide) (by decide) hm) (by decide)
+    simp only [numRowL, sizeRow, eqL, List.mem_append, List.mem_cons, List.not_mem_nil, or_false, not_or]
+    exact ⟨⟨t2, by decide, by decide, notMem_num _ (hnum lo) '"' (by decide), by decide⟩, by decide,
+      ⟨t2, by decide, by decide, notMem_num _ (hnum hi) '"' (by decide), by decide⟩, by decide,
+      ⟨t2, hcnt, by decide, hd, by decide⟩, by decide, hws⟩
   have i_n : 'n' ∉ idxL k := notMem_idxL 'n' k (by decide) (by decide) (by decide)
   have t_n := notMem_tab2 'n' (by decide)
   rw [matchText_eq _ _ _ (by decide), lit_name, List.toList_toArray, tierHead_shapeN]
@@ -1090,7 +1197,7 @@ theorem head_name (num : α → String) (k : Nat) (isI : Bool) (name : String) (
       simp only [List.mem_append, List.mem_cons, not_or]
       exact ⟨⟨i_n, by decide, by simp⟩, t_n, c1, c2, by decide, by decide, by decide, t_n⟩
     simp only [Bool.false_eq_true, if_false]
-    rw [scanL_after 'n' ['a', 'm', 'e'] _ _ (textAfter false) _ hA (textAfter_line _ _ hesc)]
+    rw [scanL_after 'n' ['a', 'm', 'e'] _ _ (textAfter true) _ hA (textAfter_dotall_tail _ _ htail)]
     rfl
   | true =>
     have e1 : (idxL k ++ ['\n']) ++ (tab2 ++ ("class = \"".toList ++ ("IntervalTier".toList ++ ('"' :: ' ' :: '\n' :: tab2)))) =
@@ -1109,7 +1216,7 @@ theorem head_name (num : α → String) (k : Nat) (isI : Bool) (name : String) (
     rw [e1, List.append_assoc, scanL_skip 'n' _ _ _ _ hA1, List.cons_append, scanL_fail _ _ _ _ (by
       have : "tervalTier".toList = 't' :: "ervalTier".toList := by rfl
       simp [List.isPrefixOf, this]),
-      scanL_after 'n' ['a', 'm', 'e'] _ _ (textAfter false) _ hA2 (textAfter_line _ _ hesc)]
+      scanL_after 'n' ['a', 'm', 'e'] _ _ (textAfter true) _ hA2 (textAfter_dotall_tail _ _ htail)]
     rfl
 
 /-! ## one tier -/
@@ -1187,17 +1294,15 @@ entry separator of the tier's own class (`intervals [`, `intervals[` in an inter
 point tier).  Plain substrings of the label itself: quote doubling does not matter, the patterns have no quote. -/
 def NoKwLong (t : AnyTier α) : Prop := ∀ s ∈ texts t, ∀ p ∈ itA :: itB :: entrySeps t, ¬ p <:+: s.toList
 
-def nameOf : AnyTier α → String
-  | .I t => t.name
-  | .P t => t.name
-def labelsOf : AnyTier α → List String
-  | .I t => t.es.map (·.l)
-  | .P t => t.ps.map (·.l)
+/-- the name is a single line, or it contains neither the word `xmin` nor the word `xmax`.  (Until fix A32 a multi-line name
+could not be read at all: `name ?= ?"(.*)"` had no DOTALL.  What is left: the reader looks for the tier's `xmin` / `xmax` rows
+from the top of the tier header, so a LINE of a multi-line name that reads `xmin = 1` is taken for the span row —
+`parseLong_name_row_counterexample`, the same kind of defect as known finding A10, not a small patch.) -/
+def NameRowFree (t : AnyTier α) : Prop :=
+  '\n' ∉ (nameOf t).toList ∨ (¬ "xmin".toList <:+: (nameOf t).toList ∧ ¬ "xmax".toList <:+: (nameOf t).toList)
 
-/-- labels are strip-invariant (names need not be: the long-format reader does not strip names) -/
-def StrippedLabels (t : AnyTier α) : Prop := ∀ s ∈ labelsOf t, pyStrip s = s
-/-- the name is a single line (the reader's `name ?= ?"(.*)"` does not cross a line break) -/
-def NameLine (t : AnyTier α) : Prop := '\n' ∉ (nameOf t).toList
+/-- single-line names are fine -/
+theorem NameRowFree.of_line {t : AnyTier α} (h : '\n' ∉ (nameOf t).toList) : NameRowFree t := Or.inl h
 
 theorem headLines_free (pat : List Char) (num : α → String) (hnum : ∀ x, LongNum (num x).toList) (k : Nat) (cls : List Char)
     (name : String) (lo hi : α) (cnt : List Char) (n : Nat) (hq : q ∉ pat) (hb : '[' ∈ pat) (hcls : '[' ∉ cls)
@@ -1308,7 +1413,7 @@ theorem classAfter_written (b a : Bool) (rest : List Char) : classAfter (eqOf b 
 
 /-- **(b) one written interval tier is read back** from its `tierTxt` (the text between two `item [`) -/
 theorem readTier_iv (num : α → String) (hnum : ∀ x, LongNum (num x).toList) (k : Nat) (t : ITier α) (trail : List Char)
-    (htrail : ∀ c ∈ trail, c = ' ') (hkw : NoKwLong (.I t)) (hlab : StrippedLabels (.I t)) (hname : NameLine (.I t)) :
+    (htrail : ∀ c ∈ trail, c = ' ') (hkw : NoKwLong (.I t)) (hlab : StrippedLabels (.I t)) (hname : NameRowFree (.I t)) :
     readTierLong (tierBodyL num k (.I t) ++ trail).toArray = .ok (rawTier num (.I t)) := by
   have hl : ∀ e ∈ t.es, NoEdgeSpace e.l.toList := fun e he =>
     (pyStrip_eq_iff _).1 (hlab e.l (by simp only [labelsOf, List.mem_map]; exact ⟨e, he, rfl⟩))
@@ -1363,7 +1468,8 @@ theorem readTier_iv (num : α → String) (hnum : ∀ x, LongNum (num x).toList)
   obtain ⟨ws, rest, hws, hp, hrest⟩ := piecesL_shape tab2
     (tierHead num k "IntervalTier".toList t.name t.lo t.hi "intervals".toList t.es.length) (ivBodies num 0 t.es) trail
   have hwsp : ∀ c ∈ ws, c = ' ' := by rcases hws with rfl | rfl; exact mem_tab2; exact htrail
-  have hn := head_name num k true t.name t.lo t.hi "intervals".toList t.es.length ws hname
+  have hn := head_name num hnum k true t.name t.lo t.hi "intervals".toList t.es.length ws (by decide)
+    (fun hm => absurd (hwsp _ hm) (by decide))
   simp only [if_true] at hn
   obtain ⟨hx1, hx2⟩ := head_nums num hnum k "IntervalTier".toList t.name t.lo t.hi "intervals".toList t.es.length ws
     (by decide) hname
@@ -1705,7 +1811,7 @@ theorem class_not_in_point (num : α → String) (hnum : ∀ x, LongNum (num x).
 
 /-- **(b) one written point tier is read back** from its `tierTxt` -/
 theorem readTier_pt (num : α → String) (hnum : ∀ x, LongNum (num x).toList) (k : Nat) (t : PTier α) (trail : List Char)
-    (htrail : ∀ c ∈ trail, c = ' ') (hkw : NoKwLong (.P t)) (hlab : StrippedLabels (.P t)) (hname : NameLine (.P t)) :
+    (htrail : ∀ c ∈ trail, c = ' ') (hkw : NoKwLong (.P t)) (hlab : StrippedLabels (.P t)) (hname : NameRowFree (.P t)) :
     readTierLong (tierBodyL num k (.P t) ++ trail).toArray = .ok (rawTier num (.P t)) := by
   have hl : ∀ p ∈ t.ps, NoEdgeSpace p.l.toList := fun p hp =>
     (pyStrip_eq_iff _).1 (hlab p.l (by simp only [labelsOf, List.mem_map]; exact ⟨p, hp, rfl⟩))
@@ -1746,7 +1852,8 @@ theorem readTier_pt (num : α → String) (hnum : ∀ x, LongNum (num x).toList)
   obtain ⟨ws, rest, hws, hp, hrest⟩ := piecesL_shape tab2
     (tierHead num k "TextTier".toList t.name t.lo t.hi "points".toList t.ps.length) (ptBodies num 0 t.ps) trail
   have hwsp : ∀ c ∈ ws, c = ' ' := by rcases hws with rfl | rfl; exact mem_tab2; exact htrail
-  have hn := head_name num k false t.name t.lo t.hi "points".toList t.ps.length ws hname
+  have hn := head_name num hnum k false t.name t.lo t.hi "points".toList t.ps.length ws (by decide)
+    (fun hm => absurd (hwsp _ hm) (by decide))
   simp only [Bool.false_eq_true, if_false] at hn
   obtain ⟨hx1, hx2⟩ := head_nums num hnum k "TextTier".toList t.name t.lo t.hi "points".toList t.ps.length ws
     (by decide) hname
@@ -2052,14 +2159,14 @@ theorem mem_tierBodies (num : α → String) (k : Nat) (ts : List (AnyTier α)) 
 
 /-- **(b) any written tier is read back** from its `tierTxt` -/
 theorem readTier_written (num : α → String) (hnum : ∀ x, LongNum (num x).toList) (k : Nat) (t : AnyTier α) (trail : List Char)
-    (htrail : ∀ c ∈ trail, c = ' ') (hkw : NoKwLong t) (hlab : StrippedLabels t) (hname : NameLine t) :
+    (htrail : ∀ c ∈ trail, c = ' ') (hkw : NoKwLong t) (hlab : StrippedLabels t) (hname : NameRowFree t) :
     readTierLong (tierBodyL num k t ++ trail).toArray = .ok (rawTier num t) := by
   cases t with
   | I t => exact readTier_iv num hnum k t trail htrail hkw hlab hname
   | P t => exact readTier_pt num hnum k t trail htrail hkw hlab hname
 
 theorem mapM_tiers (num : α → String) (hnum : ∀ x, LongNum (num x).toList) (k : Nat) (t : AnyTier α) (ts : List (AnyTier α))
-    (hkw : ∀ x ∈ t :: ts, NoKwLong x) (hlab : ∀ x ∈ t :: ts, StrippedLabels x) (hname : ∀ x ∈ t :: ts, NameLine x) :
+    (hkw : ∀ x ∈ t :: ts, NoKwLong x) (hlab : ∀ x ∈ t :: ts, StrippedLabels x) (hname : ∀ x ∈ t :: ts, NameRowFree x) :
     ((piecesL tabL (tierBodyL num k t) (tierBodies num (k + 1) ts) []).map List.toArray).mapM readTierLong =
       .ok ((t :: ts).map (rawTier num)) := by
   induction ts generalizing k t with
@@ -2182,21 +2289,23 @@ theorem hdr4 (num : α → String) (lo hi : α) (n : Nat) :
 
 /-- **C01, long format, whole file**: praatio's long-format reader (`_parseNormalTextgrid`) applied to the text praatio's
 long-format emitter writes for ANY textgrid (any number of tiers, also none; any number of entries) returns exactly that
-textgrid — under the hypotheses: numerals match the reader's pattern `[\d.]+(?:[eE][-+]?\d+)?`; no name or label
-contains `item [`, `item[` or the entry separator of its own tier class (A10); labels are strip-invariant; names are
-single-line; no `\r\n` in names and labels.
+textgrid — under the hypotheses: numerals match the reader's captured group `-?[\d.]+(?:[eE][-+]?\d+)?`; no name or label
+contains `item [`, `item[` or the entry separator of its own tier class (A10); labels are strip-invariant; a name is a single
+line or holds neither the word `xmin` nor `xmax`; no `\r\n` in names and labels.
 
 The hypotheses, classified: `hnum` — a property of the numeral renderer, true of CPython's `repr` / `"%d"` for every finite
-NON-NEGATIVE float, which is what C01 quantifies over (a negative time loses its sign or raises: see `LongNum`);
+float, NEGATIVE ones and `-0.0` included (the sign used to be lost or to raise: defect A30, fixed — see `LongNum`);
 `hkw` — known reader defect A10, needed (`parseLong_keyword_counterexample`); `hlab` — enforced by the code: the
 `IntervalTier` / `PointTier` constructors strip every label, so no in-memory textgrid violates it (the reader strips labels
 too: an unstripped label would come back stripped, as in `parseShort_emit_strip`; tier NAMES need no such hypothesis here —
-this reader does not strip them, see the `#guard` on `" a "` below); `hname` — C01 quantifies over single-line names;
-needed (`parseLong_name_newline_counterexample`; the short and JSON formats do keep a multi-line name);
+this reader does not strip them, see the `#guard` on `" a "` below); `hname` (`NameRowFree`) — every single-line name and every
+multi-line name without the words `xmin` / `xmax` (multi-line names are read since fix A32: `parseLong_name_newline_regression`);
+what is still excluded is a defect of the A10 family, needed: `parseLong_name_row_counterexample` (a line of the name that reads
+`xmin = 1` is taken for the tier's span row);
 `hcr` — C01 quantifies over texts without carriage returns (`NoCRLF` is weaker: a lone `\r` is allowed and survives at
 this level — `io.open`'s universal newlines turn it into `\n` when the file is read from disk). -/
 theorem parseLong_emit (num : α → String) (hnum : ∀ x, LongNum (num x).toList) (g : Tg α) (lo hi : α)
-    (hkw : ∀ t ∈ g.tiers, NoKwLong t) (hlab : ∀ t ∈ g.tiers, StrippedLabels t) (hname : ∀ t ∈ g.tiers, NameLine t)
+    (hkw : ∀ t ∈ g.tiers, NoKwLong t) (hlab : ∀ t ∈ g.tiers, StrippedLabels t) (hname : ∀ t ∈ g.tiers, NameRowFree t)
     (hcr : ∀ t ∈ g.tiers, NoCRLF t) :
     Rd.parseLong (Txt.ofString (tgToLong num g lo hi)) = .ok (rawOf num g lo hi) := by
   have hfile : Txt.ofString (tgToLong num g lo hi) = (fileLong num g lo hi).toArray := by
@@ -2299,14 +2408,15 @@ theorem noKwLong_of_no_bracket (t : AnyTier α) (h : ∀ s ∈ texts t, '[' ∉ 
   exact not_infix_of_not_mem '[' p _ hb (h s hs)
 
 theorem numN_long (n : Nat) : LongNum (numN n).toList := by
-  apply LongNum.plain
+  apply LongNum.pos
+  apply UNum.plain
   · rw [numN, count_toList]; exact Nat.toDigits_ne_nil
   · intro c hc
     rw [numN, count_toList] at hc
     simp [isDigitDot, Nat.isDigit_of_mem_toDigits (by decide) (by decide) hc]
 
 theorem sample_long_hyps :
-    (∀ t ∈ sampleTg.tiers, NoKwLong t) ∧ (∀ t ∈ sampleTg.tiers, StrippedLabels t) ∧ (∀ t ∈ sampleTg.tiers, NameLine t) ∧
+    (∀ t ∈ sampleTg.tiers, NoKwLong t) ∧ (∀ t ∈ sampleTg.tiers, StrippedLabels t) ∧ (∀ t ∈ sampleTg.tiers, NameRowFree t) ∧
       (∀ t ∈ sampleTg.tiers, NoCRLF t) := by
   refine ⟨?_, ?_, ?_, sample_hyps.2.2.2⟩
   · intro t ht
@@ -2321,7 +2431,7 @@ theorem sample_long_hyps :
     cases t <;> simp only [labelsOf, texts, List.mem_cons] at hs ⊢ <;> exact Or.inr hs
   · intro t ht
     simp only [sampleTg, List.mem_cons, List.not_mem_nil, or_false] at ht
-    rcases ht with rfl | rfl <;> simp only [NameLine, nameOf] <;> decide
+    rcases ht with rfl | rfl <;> simp only [NameRowFree, nameOf] <;> decide
 
 /-- non-vacuity: the whole-file theorem applies to the two-tier sample of C01Full (quotes, doubled quotes, newline) -/
 theorem sample_long_read_back :
@@ -2347,11 +2457,19 @@ def ptT (name l : String) : AnyTier Nat := .P ⟨name, [⟨0, l⟩, ⟨1, "z"⟩
 #guard !longOK [ivT "a" "item ["] && !longOK [ptT "a" "an item[3]"] && !longOK [ivT "item [" "x"]
 #guard !longOK [ivT "a" "intervals ["] && !longOK [ivT "a" "intervals[1]"] && !longOK [ivT "intervals [" "x"]
 #guard !longOK [ptT "a" "points ["] && !longOK [ptT "a" "points[1]"] && !longOK [ptT "points [" "x"]
--- names must be single-line; `\r\n` is rewritten; labels must be strip-invariant (they are: the tier constructors strip)
-#guard !longOK [ivT "a\nb" "x"] && !longOK [ivT "a" "x\r\ny"] && longOK [ivT "a" "x\ry"] && longOK [ivT " a " "x"]
--- a numeral outside `[\d.]+(?:[eE][-+]?\d+)?`: the sign of a negative number is not captured
+-- `\r\n` is rewritten; labels must be strip-invariant (they are: the tier constructors strip); names are kept verbatim
+#guard !longOK [ivT "a" "x\r\ny"] && longOK [ivT "a" "x\ry"] && longOK [ivT " a " "x"]
+-- multi-line names are read (A32, fixed) — leading / trailing line breaks, quotes at line ends, lines that look like other rows
+#guard longOK [ivT "a\nb" "x"] && longOK [ptT "\na\n" "x"] && longOK [ivT "a\"\nb\" \n" "x"] && longOK [ivT "a\ntext = \"u\"\nb" "x"]
+#guard longOK [ivT "a\nxmin = 1" "x"] && longOK [ivT "a\nxmax = 1\"" "x"] && longOK [ivT "a\nxmins\nb" "x"]
+-- … except when a LINE of the name reads like the tier's own `xmin` / `xmax` row (hypothesis `NameRowFree`)
+#guard !longOK [ivT "xmin = 1\nb" "x"] && !longOK [ptT "a\n  xmax= -2.5e3 \nb" "x"]
+-- negative times (regression for A30, fixed): the sign of a negative number is captured, at tier and at entry level
 #guard (match Rd.parseLong (Txt.ofString (tgToLong (fun x : Int => toString x) ⟨[.P ⟨"p", [⟨-1, "x"⟩], -1, 9⟩], none, none⟩ (-1) 9)) with
-  | .ok r => r.tiers.map (·.entries) == [[["1", "x"]]]
+  | .ok r => r.tiers.map (·.entries) == [[["-1", "x"]]] && r.tiers.map (·.xmin) == ["-1"] && r.xmin == "-1"
+  | .error _ => false)
+#guard (match Rd.parseLong (Txt.ofString (tgToLong (fun x : Int => toString x) ⟨[.I ⟨"a", [⟨-3, -2, "x"⟩], -4, -1⟩], none, none⟩ (-4) (-1))) with
+  | .ok r => r.tiers.map (·.entries) == [[["-3", "-2", "x"]]] && r.tiers.map (fun t => (t.xmin, t.xmax)) == [("-4", "-1")]
   | .error _ => false)
 
 /-! ## proved counter-examples (the reader model evaluated by the kernel on the emitted text) -/
@@ -2374,7 +2492,7 @@ theorem badLong_parse : isParsingError (Rd.parseLong (Txt.ofString (tgToLong num
 /-- **the keyword hypothesis `NoKwLong` is needed (A10, long format)**: the one-tier textgrid whose only label is `item [`
 satisfies every other hypothesis of `parseLong_emit`, and the reader raises `ParsingError` on the file written for it -/
 theorem parseLong_keyword_counterexample :
-    (∀ t ∈ badLong.tiers, StrippedLabels t) ∧ (∀ t ∈ badLong.tiers, NameLine t) ∧ (∀ t ∈ badLong.tiers, NoCRLF t) ∧
+    (∀ t ∈ badLong.tiers, StrippedLabels t) ∧ (∀ t ∈ badLong.tiers, NameRowFree t) ∧ (∀ t ∈ badLong.tiers, NoCRLF t) ∧
     (¬ ∀ t ∈ badLong.tiers, NoKwLong t) ∧
     Rd.parseLong (Txt.ofString (tgToLong numN badLong 0 1)) = .error .ParsingError ∧
     Rd.parseLong (Txt.ofString (tgToLong numN badLong 0 1)) ≠ .ok (rawOf numN badLong 0 1) := by
@@ -2393,7 +2511,7 @@ theorem parseLong_keyword_counterexample :
   · intro t ht
     simp only [badLong, List.mem_cons, List.not_mem_nil, or_false] at ht
     subst ht
-    simp only [NameLine, nameOf]; decide
+    simp only [NameRowFree, nameOf]; decide
   · intro t ht s hs
     simp only [badLong, List.mem_cons, List.not_mem_nil, or_false] at ht
     subst ht
@@ -2403,15 +2521,52 @@ theorem parseLong_keyword_counterexample :
     exact h (.I ⟨"a", [⟨0, 1, "item ["⟩], 0, 1⟩) (by simp [badLong]) "item [" (by simp [texts]) itA (by simp)
       ⟨[], [], by decide⟩
 
-/-- **names must be single-line**: a tier named `a⏎b` is written `name = "a⏎b"`, which `name ?= ?"(.*)"\s*$` (no DOTALL)
-does not match: `ParsingError` -/
-theorem parseLong_name_newline_counterexample :
-    isParsingError (Rd.parseLong (Txt.ofString (tgToLong numN ⟨[.P ⟨"a\nb", [], 0, 1⟩], some 0, some 1⟩ 0 1))) = true := by
-  have hfile : Txt.ofString (tgToLong numN ⟨[.P ⟨"a\nb", [], 0, 1⟩], some 0, some 1⟩ 0 1) =
-      (fileLong numN ⟨[.P ⟨"a\nb", [], 0, 1⟩], some 0, some 1⟩ 0 1).toArray := by
+/-- one point tier named `a⏎b`, no points -/
+def nlNameTgL : Tg Nat := ⟨[.P ⟨"a\nb", [], 0, 1⟩], some 0, some 1⟩
+
+theorem nlName_hyps : (∀ t ∈ nlNameTgL.tiers, NoKwLong t) ∧ (∀ t ∈ nlNameTgL.tiers, StrippedLabels t) ∧
+    (∀ t ∈ nlNameTgL.tiers, NameRowFree t) ∧ (∀ t ∈ nlNameTgL.tiers, NoCRLF t) := by
+  refine ⟨?_, ?_, ?_, ?_⟩ <;> intro t ht <;> simp only [nlNameTgL, List.mem_cons, List.not_mem_nil, or_false] at ht <;> subst ht
+  · apply noKwLong_of_no_bracket
+    intro s hs
+    simp only [texts, List.map_nil, List.mem_cons, List.not_mem_nil, or_false] at hs
+    subst hs; decide
+  · intro s hs
+    simp [labelsOf] at hs
+  · exact Or.inr ⟨by simp only [nameOf]; decide, by simp only [nameOf]; decide⟩
+  · intro s hs
+    simp only [texts, List.map_nil, List.mem_cons, List.not_mem_nil, or_false] at hs
+    subst hs; decide
+
+/-- **multi-line names, regression for A32 (fixed, ae33f8b)**: a tier named `a⏎b` is written `name = "a⏎b"`; the name pattern
+`name ?= ?"(.*)"\s*$` now has DOTALL (like `text` and `mark`) and the whole-file theorem covers the file: it is read back
+exactly.  Before the fix the pattern did not cross the line break: `ParsingError: Expected field in Textgrid missing.` on a file
+praatio itself had written, while the short and both JSON formats kept the name. -/
+theorem parseLong_name_newline_regression :
+    Rd.parseLong (Txt.ofString (tgToLong numN nlNameTgL 0 1)) = .ok (rawOf numN nlNameTgL 0 1) :=
+  parseLong_emit numN numN_long nlNameTgL 0 1 nlName_hyps.1 nlName_hyps.2.1 nlName_hyps.2.2.1 nlName_hyps.2.2.2
+
+/-- one point tier named `xmin = 1⏎b` on [0, 2], no points -/
+def rowNameTg : Tg Nat := ⟨[.P ⟨"xmin = 1\nb", [], 0, 2⟩], some 0, some 2⟩
+
+/-- **the hypothesis `NameRowFree` is needed**: the reader looks for the tier's `xmin` row from the top of the tier header, and
+the first line of the written name row `name = "xmin = 1⏎b"` ends in `xmin = 1`: the tier's start is read as `1` instead of
+`0` — silently; name, end and everything else are right.  Replayed on praatio (after A32): `PointTier("xmin = 1\nb", [(0.5,
+"p")], 0, 2)` saved as "long_textgrid" (includeBlankSpaces False) and reopened has `minTimestamp == 0.5` (the constructor's
+`min(1, 0.5)`), from "short_textgrid" and "textgrid_json" `0.0`.  Same family as known finding A10 (a name that spells one
+of the reader's own rows); before A32 every multi-line name raised `ParsingError`. -/
+theorem parseLong_name_row_counterexample :
+    rawEq (Rd.parseLong (Txt.ofString (tgToLong numN rowNameTg 0 2)))
+      ⟨"0", "2", [⟨"TextTier", "xmin = 1\nb", "1", "2", []⟩]⟩ = true ∧
+    rawEq (Rd.parseLong (Txt.ofString (tgToLong numN rowNameTg 0 2))) (rawOf numN rowNameTg 0 2) = false ∧
+    ¬ (∀ t ∈ rowNameTg.tiers, NameRowFree t) := by
+  have hfile : Txt.ofString (tgToLong numN rowNameTg 0 2) = (fileLong numN rowNameTg 0 2).toArray := by
     unfold Txt.ofString; rw [emitLong_toList]
   rw [hfile, parseLong_eq, List.toList_toArray]
-  decide +kernel
+  refine ⟨by decide +kernel, by decide +kernel, fun h => ?_⟩
+  rcases h (.P ⟨"xmin = 1\nb", [], 0, 2⟩) (by simp [rowNameTg]) with h1 | h1
+  · exact h1 (by simp only [nameOf]; decide)
+  · exact h1.1 (by simp only [nameOf]; exact ⟨[], " = 1\nb".toList, by decide⟩)
 
 /-! ## through the format sniffing of `parseTextgridStr` (non-JSON path) -/
 
@@ -2535,7 +2690,7 @@ def dropEmpty (includeEmpty : Bool) (r : RawTg) : RawTg :=
 label containing `ooTextFile short` sends the long file to the short-format reader, see the `#guard` below; replayed on
 praatio: `ValueError: could not convert string to float: 'xmin = 0'`; the others as for `parseLong_emit`.) -/
 theorem parseText_long_emit (num : α → String) (hnum : ∀ x, LongNum (num x).toList) (g : Tg α) (lo hi : α)
-    (hkw : ∀ t ∈ g.tiers, NoKwLong t) (hlab : ∀ t ∈ g.tiers, StrippedLabels t) (hname : ∀ t ∈ g.tiers, NameLine t)
+    (hkw : ∀ t ∈ g.tiers, NoKwLong t) (hlab : ∀ t ∈ g.tiers, StrippedLabels t) (hname : ∀ t ∈ g.tiers, NameRowFree t)
     (hcr : ∀ t ∈ g.tiers, NoCRLF t) (hsn : ∀ t ∈ g.tiers, NoSniff t) (includeEmpty : Bool) :
     Rd.parseText (Txt.ofString (tgToLong num g lo hi)) includeEmpty = .ok (dropEmpty includeEmpty (rawOf num g lo hi)) := by
   have hfile : Txt.ofString (tgToLong num g lo hi) = (fileLong num g lo hi).toArray := by
@@ -2556,9 +2711,9 @@ theorem parseText_long_emit (num : α → String) (hnum : ∀ x, LongNum (num x)
 /-- the short-format file through the sniffing: it is read with the short-format reader as long as it does not contain
 `item [` (then `caseB` holds) — names, labels and numerals without `item [`.  (`hnumI`: a property of the renderer, true of
 every CPython numeral; `hit`: known defect A10, needed — `parseText_short_item_counterexample`; the others as for
-`parseShort_emit`.) -/
+`parseShort_emit`: in particular NO hypothesis on tier names beyond the keywords — surrounding blanks are kept, fix A31.) -/
 theorem parseText_short_emit (num : α → String) (hnum : ∀ x, NumWord (num x)) (hnumI : ∀ x, ¬ itA <:+: (num x).toList)
-    (g : Tg α) (lo hi : α) (hne : g.tiers ≠ []) (hkw : ∀ t ∈ g.tiers, NoKw t) (hstr : ∀ t ∈ g.tiers, Stripped' t)
+    (g : Tg α) (lo hi : α) (hne : g.tiers ≠ []) (hkw : ∀ t ∈ g.tiers, NoKw t) (hstr : ∀ t ∈ g.tiers, StrippedLabels t)
     (hcr : ∀ t ∈ g.tiers, NoCRLF t) (hit : ∀ t ∈ g.tiers, ∀ s ∈ texts t, ¬ itA <:+: s.toList) (includeEmpty : Bool) :
     Rd.parseText (Txt.ofString (tgToShort num g lo hi)) includeEmpty = .ok (dropEmpty includeEmpty (rawOf num g lo hi)) := by
   have hbA : '[' ∈ itA := by decide
